@@ -167,3 +167,61 @@ Proof.
   specialize (IH ltac:(intros v Hv; apply H; right; auto)). specialize (H a ltac:(left; auto)).
   change (0 <= a + zsum l). lia.
 Qed.
+
+(* ------------------------------------------------------------------ swaps permute *)
+
+Lemma swp_perm : forall l i j, (i < length l)%nat -> (j < length l)%nat -> Permutation l (swp l i j).
+Proof.
+  intros l i j Hi Hj. apply (Permutation_nth l (swp l i j) 0). cbv zeta.
+  split; [apply swp_length|].
+  exists (fun k => if (j =? k)%nat then i else if (i =? k)%nat then j else k).
+  split; [|split].
+  - intros k Hk. destruct (Nat.eqb_spec j k); [auto|]. destruct (Nat.eqb_spec i k); auto.
+  - intros k1 k2 H1 H2.
+    destruct (Nat.eqb_spec j k1); destruct (Nat.eqb_spec i k1);
+    destruct (Nat.eqb_spec j k2); destruct (Nat.eqb_spec i k2); lia.
+  - intros k Hk. rewrite nth_swp by auto.
+    destruct (Nat.eqb_spec j k); [auto|]. destruct (Nat.eqb_spec i k); auto.
+Qed.
+
+(* ------------------------------------------------------------------ the safety half *)
+
+(* For the iterators whose completeness is not proved here.  [safe next value F s0]: from every
+   state reachable from the constructor's state by calls of Next, the next call does not panic
+   (and does not run out of internal fuel); if it returns true the value then held is a member
+   of the family F; if it returns false every later call returns false as well. *)
+Section Safety.
+Variables St Obj : Type.
+Variable next : St -> option (St * bool).
+Variable value : St -> Obj.
+
+Inductive reachable (s0 : St) : St -> Prop :=
+| reach_init : reachable s0 s0
+| reach_step : forall s s' b, reachable s0 s -> next s = Some (s', b) -> reachable s0 s'.
+
+Definition safe (F : Obj -> Prop) (s0 : St) : Prop :=
+  forall s, reachable s0 s ->
+    exists s' b, next s = Some (s', b) /\ (b = true -> F (value s')) /\ (b = false -> exhausted next s').
+
+Lemma safe_of_inv : forall (F : Obj -> Prop) (Inv : St -> Prop) s0,
+  Inv s0 ->
+  (forall s, Inv s -> exists s' b, next s = Some (s', b) /\ Inv s' /\
+     (b = true -> F (value s')) /\ (b = false -> exhausted next s')) ->
+  safe F s0.
+Proof.
+  intros F Inv s0 H0 Hstep s Hr.
+  assert (Hi : Inv s).
+  { induction Hr as [|s s' b Hr IH E]; auto.
+    destruct (Hstep s IH) as (s'' & b'' & E' & Hi & _). rewrite E in E'. inversion E'; subst. auto. }
+  destruct (Hstep s Hi) as (s' & b & E & _ & H1 & H2). exists s', b. auto.
+Qed.
+
+Lemma fixpoint_exhausted : forall s, next s = Some (s, false) -> exhausted next s.
+Proof.
+  intros s H k. induction k as [|k IH]; simpl; [discriminate|]. rewrite H. exact IH.
+Qed.
+
+End Safety.
+
+Arguments reachable {St}.
+Arguments safe {St Obj}.
